@@ -590,7 +590,9 @@ def dump(value, filename, compress=0, protocol=None):
         # unset the variable to be sure no compression level is set afterwards.
         compress_method = None
         for name, compressor in _COMPRESSORS.items():
-            if filename.endswith(compressor.extension):
+            # A compressor registered without an extension (the default) is
+            # never selected by the name of the file: every name ends with "".
+            if compressor.extension and filename.endswith(compressor.extension):
                 compress_method = name
 
         if compress_method in _COMPRESSORS and compress_level == 0:
